@@ -6804,6 +6804,10 @@ def subn(
         while True:  # for `loop`
             if callback:
                 if skip_sub := callback(matched):
+                    if loop != loop_start:  # callback declined a later `loop` round, location was already substituted so end it normally
+                        skip_sub = False
+                        loop = loop_start
+
                     break
 
             repl_ = repl.copy()  # this is duplication of repl template so no options needed
